@@ -221,7 +221,7 @@ impl Compiler {
         self.builder.patch_jump(jump_to_end);
 
         // Pop loop context (patches break jumps)
-        self.pop_loop();
+        self.pop_loop()?;
 
         Ok(())
     }
@@ -255,7 +255,7 @@ impl Compiler {
         self.builder.free_register(test_reg);
 
         // Pop loop context
-        self.pop_loop();
+        self.pop_loop()?;
 
         Ok(())
     }
@@ -380,7 +380,7 @@ impl Compiler {
         }
 
         // Pop loop context
-        self.pop_loop();
+        self.pop_loop()?;
 
         // Pop scope
         self.emit_pop_scope();
@@ -502,7 +502,7 @@ impl Compiler {
         }
 
         // Pop loop context: breaks land here, still inside the per-iteration scope
-        self.pop_loop();
+        self.pop_loop()?;
 
         // Leaving the loop (test failure or break) pops the per-iteration scope.
         // This path is entered from inside that scope.
@@ -578,7 +578,7 @@ impl Compiler {
         self.builder.patch_jump(jump_placeholder);
 
         // Pop loop context
-        self.pop_loop();
+        self.pop_loop()?;
 
         // Free registers
         self.builder.free_register(value_reg);
@@ -700,7 +700,7 @@ impl Compiler {
         self.builder.patch_jump(jump_placeholder);
 
         // Pop loop context
-        self.pop_loop();
+        self.pop_loop()?;
 
         // Free registers
         self.builder.free_register(value_reg);
@@ -815,7 +815,7 @@ impl Compiler {
         }
 
         // Pop loop context (patches break jumps)
-        self.pop_loop();
+        self.pop_loop()?;
 
         // Pop the scope of the case clauses
         self.emit_pop_scope();
@@ -1008,7 +1008,7 @@ impl Compiler {
         self.compile_statement_impl(&labeled.body)?;
 
         // Pop loop context
-        self.pop_loop();
+        self.pop_loop()?;
 
         Ok(())
     }
